@@ -1,9 +1,11 @@
 (* Extraction for C18: the hand model of SepPair / SepMatrix and the verified checkers. *)
 Require Extraction.
 Require Import ExtrOcamlBasic.
-From Adapt Require Import Num.Qaux Num.SignedZero Dialect.SepPairModel.
+From Adapt Require Import Num.Qaux Num.SignedZero Dialect.SepPairModel Dialect.SepSubsetModel.
 Extraction "c18_model.ml" sp_default addSep transform isVAlign isHAlign isVerticalCardinal isHorizontalCardinal
   getCardinalDir holdsb tf_place generateSeparationConstraint vc_holdsb
   m_addSep m_addFixedRelativeSep m_getCardinalDir m_areAligned m_transform sep_equivb coincideb
   m_addFixedRelativeSepPos m_setCardinalOP m_hAlign m_vAlign m_alignByEquatedCoord m_free m_clear m_setSepPair
-  m_transformClosedSubset m_transformOpenSubset m_removeNode m_removeNodes m_corresponding m_roundGapsUpward m_holdsb.
+  m_transformClosedSubset m_transformOpenSubset m_removeNode m_removeNodes m_corresponding m_roundGapsUpward m_holdsb
+  sm_transformClosedSubset sm_transformOpenSubset sm_transformOpenSubset_hoisted sm_spec_closed sm_spec_open
+  ascb keys_ascb rows_ascb upperb.
